@@ -27,16 +27,23 @@ Qed.
 Fixpoint links (t:Z) (fat:list Z) (l:list Z) : Prop :=
   match l with
   | [] => False
-  | [c] => 0 <= c < lenZ fat /\ is_eoc t (nthZ fat c) = true
-  | c :: ((d :: _) as r) => 0 <= c < lenZ fat /\ nthZ fat c = d /\ is_data t d = true /\ links t fat r
+  | [c] => Gen.MIN_DATA_CLUSTER t <= c < lenZ fat /\ is_eoc t (nthZ fat c) = true
+  | c :: ((d :: _) as r) => Gen.MIN_DATA_CLUSTER t <= c < lenZ fat /\ nthZ fat c = d /\ is_data t d = true /\ links t fat r
   end.
-Lemma links_cons2 t fat c d r : links t fat (c :: d :: r) <-> 0 <= c < lenZ fat /\ nthZ fat c = d /\ is_data t d = true /\ links t fat (d :: r).
+Lemma links_cons2 t fat c d r : links t fat (c :: d :: r) <-> Gen.MIN_DATA_CLUSTER t <= c < lenZ fat /\ nthZ fat c = d /\ is_data t d = true /\ links t fat (d :: r).
 Proof. reflexivity. Qed.
 Lemma links_in_range t fat l : links t fat l -> Forall (fun c => 0 <= c < lenZ fat) l.
 Proof.
+  pose proof (min_data_nonneg t) as Hm.
   induction l as [|c [|d r] IH]; intros H; [destruct H| |].
   - destruct H. repeat constructor; lia.
-  - apply links_cons2 in H. destruct H as (H1 & _ & _ & H4). constructor; [exact H1|apply IH; exact H4].
+  - apply links_cons2 in H. destruct H as (H1 & _ & _ & H4). constructor; [lia|apply IH; exact H4].
+Qed.
+Lemma links_min t fat l : links t fat l -> Forall (fun c => Gen.MIN_DATA_CLUSTER t <= c) l.
+Proof.
+  induction l as [|c [|d r] IH]; intros H; [destruct H| |].
+  - destruct H. repeat constructor; lia.
+  - apply links_cons2 in H. destruct H as (H1 & _ & _ & H4). constructor; [lia|apply IH; exact H4].
 Qed.
 Lemma links_nonfree t fat l : vt t -> links t fat l -> Forall (fun c => nthZ fat c <> 0) l.
 Proof.
@@ -57,7 +64,7 @@ Qed.
 Lemma chain_go_links f : forall t fat i l, chain_go f t fat i = (l, true) -> links t fat l /\ hd 0 l = i.
 Proof.
   induction f as [|g IH]; intros t fat i l H; [discriminate|].
-  cbn [chain_go] in H. destruct ((i <? 0) || (lenZ fat <=? i)) eqn:Eg; [discriminate|]. cbv zeta in H.
+  cbn [chain_go] in H. destruct ((i <? Gen.MIN_DATA_CLUSTER t) || (lenZ fat <=? i)) eqn:Eg; [discriminate|]. cbv zeta in H.
   destruct (is_data t (nthZ fat i)) eqn:Ed.
   - destruct (chain_go g t fat (nthZ fat i)) as [r o] eqn:E. inversion H; subst. destruct (IH _ _ _ _ E) as [Hl Hh].
     split; [|reflexivity]. destruct r as [|d r']; [destruct Hl|]. cbn [hd] in Hh. subst d. apply links_cons2. repeat split; try lia; assumption.
@@ -67,9 +74,9 @@ Lemma links_chain_go t fat : vt t -> forall l f, links t fat l -> (length l <= f
 Proof.
   intros Hv. induction l as [|c [|d r] IH]; intros f H Hf; [destruct H| |].
   - destruct f as [|g]; [cbn in Hf; lia|]. destruct H as [H1 H2]. cbn [chain_go hd].
-    replace ((c <? 0) || (lenZ fat <=? c)) with false by lia. cbv zeta. rewrite (eoc_not_data t _ Hv H2), H2. reflexivity.
+    replace ((c <? Gen.MIN_DATA_CLUSTER t) || (lenZ fat <=? c)) with false by lia. cbv zeta. rewrite (eoc_not_data t _ Hv H2), H2. reflexivity.
   - destruct f as [|g]; [cbn in Hf; lia|]. apply links_cons2 in H. destruct H as (H1 & H2 & H3 & H4). cbn [chain_go hd].
-    replace ((c <? 0) || (lenZ fat <=? c)) with false by lia. cbv zeta. rewrite H2, H3.
+    replace ((c <? Gen.MIN_DATA_CLUSTER t) || (lenZ fat <=? c)) with false by lia. cbv zeta. rewrite H2, H3.
     specialize (IH g H4 ltac:(cbn [length] in *; lia)). cbn [hd] in IH. rewrite IH. reflexivity.
 Qed.
 
@@ -113,12 +120,14 @@ Proof.
     intros x Hx Hxl. apply Hfr; [right; exact Hx|exact Hxl].
 Qed.
 
+Lemma is_data_min t c : is_data t c = true -> Gen.MIN_DATA_CLUSTER t <= c.
+Proof. unfold is_data. lia. Qed.
 Lemma is_chain_links t fat eoc l : is_eoc t eoc = true -> is_chain fat eoc l ->
   Forall (fun c => 0 <= c < lenZ fat /\ is_data t c = true) l -> links t fat l.
 Proof.
   intros He. induction l as [|c [|d r] IH]; intros H Hf; [destruct H| |].
-  - cbn [is_chain] in H. destruct (Forall_inv Hf) as [Hc _]. cbn [links]. rewrite H. auto.
-  - destruct H as [H1 H2]. destruct (Forall_inv Hf) as [Hc _]. pose proof (Forall_inv_tail Hf) as Hr. destruct (Forall_inv Hr) as [_ Hdd].
+  - cbn [is_chain] in H. destruct (Forall_inv Hf) as [Hc Hcd]. apply is_data_min in Hcd. cbn [links]. rewrite H. split; [lia|exact He].
+  - destruct H as [H1 H2]. destruct (Forall_inv Hf) as [Hc Hcd]. apply is_data_min in Hcd. pose proof (Forall_inv_tail Hf) as Hr. destruct (Forall_inv Hr) as [_ Hdd].
     apply links_cons2. repeat split; try lia; try assumption. apply IH; assumption.
 Qed.
 
